@@ -486,7 +486,7 @@ func flightGoroutines() int {
 // (a response body that was not closed), each with its descriptor and its two goroutines.
 func checkedOutConns(c *http.Client) int {
 	c.CloseIdleConnections()
-	deadline := time.Now().Add(5 * time.Second)
+	deadline := time.Now().Add(20 * time.Second)
 	for {
 		buf := make([]byte, 1<<18)
 		for {
